@@ -100,7 +100,12 @@ WORLD = {
               {'n': 'q1', 'l': 'A', 's': 'pass'},
               {'n': 'q10', 'l': 'A', 's': 'pass'},
               {'n': 'q2', 'l': 'AB', 's': 'pass'},
-              {'n': 'q21', 'l': 'AB', 's': 'pass'}],
+              {'n': 'q21', 'l': 'AB', 's': 'pass'},
+              # a class that declares layer AB inside a suite that declares A:
+              # the nearest declaration (AB) is what --layer is matched against
+              {'n': 'q3', 'l': 'AB', 's': 'pass'}],
+    'tree': [{'t': 'q0'}, {'t': 'q1'}, {'t': 'q10'}, {'t': 'q2'}, {'t': 'q21'},
+             {'c': [{'c': [{'t': 'q3'}]}], 'l': 'A'}],
 }
 TID = {t['n']: 'test_%s (vtw.tests.T_%s.test_%s)' % (t['n'], t['n'], t['n'])
        for t in WORLD['tests']}
